@@ -38,12 +38,12 @@ def nontrivial(rec, pid):
     return rec["v"] in ("MustAccept", "MayAccept") and ops >= 2
 
 
-def _replay(run, name, recs, pid_key, ops_file, seeds):
+def _replay(run, name, recs, pid_key, ops_file, seeds, pre_ops_file=None):
     path = os.path.join(tlc.WORK, "parse-replay-%s.ndjson" % name)
     core.write_ndjson(path, recs)
     total_bad = 0
     for sd in seeds:
-        out, _ = core.run_vh(["parse-replay", path, "--seed", sd] + (["--ops-file", ops_file] if ops_file else []))
+        out, _ = core.run_vh(["parse-replay", path, "--seed", sd] + (["--ops-file", ops_file] if ops_file else []) + (["--pre-ops-file", pre_ops_file] if pre_ops_file else []))
         summ = [o for o in out if "summary" in o]
         if not summ or summ[0]["summary"]["replayed"] + summ[0]["summary"]["unrealizable"] != len(recs):
             raise tlc.ToolError("parse-replay did not process every record (%s)" % name)
@@ -56,14 +56,14 @@ def _replay(run, name, recs, pid_key, ops_file, seeds):
                 rec = recs[o["mismatch"]]
                 run.violation("%s/parse/replay/%s" % (pid_key, o["verdict"]),
                               "parse_expression(%r): %s; grammar verdict %s" % (o["text"], o["why"], o["verdict"]),
-                              {"family": "parse", "ops_file": ops_file, "seed": sd, "record": rec, "text": o["text"], "got_ok": o["got_ok"], "got_ast": o["got_ast"], "panic": o["panic"]})
+                              {"family": "parse", "ops_file": ops_file, "pre_ops_file": pre_ops_file, "seed": sd, "record": rec, "text": o["text"], "got_ok": o["got_ok"], "got_ast": o["got_ast"], "panic": o["panic"]})
         run.leg("R:Pratt/" + name, seed=sd, replayed=s["replayed"], unrealizable=s["unrealizable"], by_verdict=s["by_verdict"], mismatches=sum(1 for o in out if "mismatch" in o),
                 error_variant_agree=s.get("variant_agree", 0), error_variant_drift=s.get("variant_differ", 0), error_variants=s.get("by_variant", {}),
                 drift_examples=[{"text": o["text"], "spec": o["spec"], "impl": o["impl"]} for o in out if "variant_drift" in o][:3])
     return total_bad
 
 
-def model_and_replay(run, name, cfg, pid, pid_key, ops_file=None, seeds=None, timeout=2400):
+def model_and_replay(run, name, cfg, pid, pid_key, ops_file=None, seeds=None, timeout=2400, pre_ops_file=None):
     """Leg M: TLC explores the Pratt machine and checks it against the reference grammar in every final state;
     leg R: every behaviour TLC printed is concretised and parsed by the real parser."""
     res = tlc.run("mc/MCPratt.tla", cfg, workers=16, timeout=timeout)
@@ -79,7 +79,7 @@ def model_and_replay(run, name, cfg, pid, pid_key, ops_file=None, seeds=None, ti
     picks = [r for r in recs if nontrivial(r, pid)]
     for r in picks[:: max(1, len(picks) // 2)][:2]:
         run.sample({"leg": "M/R", "config": name, "tokens": toks_text(r["toks"]), "verdict": r["v"], "spec_tree": r["ast"] if r["ok"] else None})
-    _replay(run, name, recs, pid_key, ops_file, seeds or [run.seed])
+    _replay(run, name, recs, pid_key, ops_file, seeds or [run.seed], pre_ops_file)
     return recs
 
 
@@ -204,7 +204,7 @@ def replay(path, seed):
     if case["family"] == "parse":
         p = os.path.join(tlc.WORK, "parse-replay-one.ndjson")
         core.write_ndjson(p, [case["record"]])
-        out, _ = core.run_vh(["parse-replay", p, "--seed", case.get("seed", seed)] + (["--ops-file", case["ops_file"]] if case.get("ops_file") else []))
+        out, _ = core.run_vh(["parse-replay", p, "--seed", case.get("seed", seed)] + (["--ops-file", case["ops_file"]] if case.get("ops_file") else []) + (["--pre-ops-file", case["pre_ops_file"]] if case.get("pre_ops_file") else []))
         bad = [o for o in out if "mismatch" in o]
         print(json.dumps({"record": case["record"], "mismatch": bad}, indent=1))
         return 1 if bad else 0
